@@ -745,7 +745,7 @@ pub fn replay_inner_main(path: &str, quiet: bool) -> i32 {
         if !quiet {
             println!("finding: property={} class={} known={:?} :: {}", f.property, f.class, f.known, f.detail);
         }
-        if f.property == prop && f.class == class {
+        if f.property == prop && f.class == class && (f.known.is_none() || f.known.as_deref() == v["known_signature"].as_str()) {
             hit = true;
         }
     }
